@@ -5,8 +5,7 @@
        the Script semantics on the ENCODED fragment, succeeds and leaves exactly what the
        fragment's base type promises (B: one true value, 1 if unit; V: nothing; K: key above
        a verifying signature; W: the value next to the carried element), and every
-       dissatisfaction entry leaves exactly 0.  Multisig leaves (multi, multi_a and their
-       sorted forms) and raw_pk_h are not covered yet: [no_multi].
+       dissatisfaction entry leaves exactly 0.  raw_pk_h (which only arises from decoding) is not covered: [no_multi].
      * C01_witness_script_accepts: hence a table satisfaction of a B-typed script is accepted
        as a witness-script input: final stack exactly one true element.
    The link "the implementation's output is a table entry" is established per run (the
@@ -16,14 +15,14 @@
 From Verif Require Import Exec Ser Ast Types TypeCheck SatSpec ExecLemmas TheoremA.
 
 Theorem C01_table_sound_partial :
-  forall (e : env) (ke : keyenv) (A : assets), assets_ok e ke A ->
+  forall (e : env) (ke : keyenv) (A : assets), assets_ok e ke A -> (forall kbs, e_sigok e kbs [] = false) ->
   forall (m : ms) (t : ty), type_of m = ROk t -> wf e ke m -> no_multi m ->
     good e ke A m t /\ shape ke A m t.
 Proof. exact theoremA_closed. Qed.
 Print Assumptions C01_table_sound_partial.
 
 Theorem C01_witness_script_accepts_partial :
-  forall (e : env) (ke : keyenv) (A : assets), assets_ok e ke A ->
+  forall (e : env) (ke : keyenv) (A : assets), assets_ok e ke A -> (forall kbs, e_sigok e kbs [] = false) ->
   forall (m : ms) (t : ty), type_of m = ROk t -> c_base (t_corr t) = BB -> wf e ke m -> no_multi m ->
   forall w, In w (all_sat ke A m) -> accepts e (enc ke m) w = true.
 Proof. exact witness_script_accepts. Qed.
